@@ -234,6 +234,7 @@ pub fn get_interpreter_for(language_code: &str) -> Option<Language> {
         "fr" => Some(Language::french()),
         "it" => Some(Language::italian()),
         "nl" => Some(Language::dutch()),
+        "pt" => Some(Language::portuguese()),
         _ => None,
     }
 }
